@@ -441,7 +441,8 @@ void bn_gen_prime_safep(bn_t a, size_t bits) {
 			/* Restore a. */
 			bn_lsh(a, a, 1);
 			bn_add_dig(a, a, 1);
-			if (bn_is_prime(a)) {
+			/* An even candidate was rounded down, check the length again. */
+			if (bn_bits(a) == bits && bn_is_prime(a)) {
 				/* Should be prime now. */
 				return;
 			}
